@@ -42,11 +42,13 @@ def gen_step(rng, d, n):
     if op == 'setitem': s.update(i=idx(), v=rand_item(rng, d))
     if op == 'setslice': s.update(k=sl(), vs=[rand_item(rng, d) for _ in range(rng.randrange(0, 4))])
     if op == 'append': s['v'] = rand_item(rng, d)
-    if op == 'extend': s['vs'] = [rand_item(rng, d) for _ in range(rng.randrange(0, 4))]
+    if op == 'extend':
+        s['vs'] = [rand_item(rng, d) for _ in range(rng.randrange(0, 4))]
+        if rng.random() < 0.15: s['as_array'] = rng.choice([2, 4])
     if op == 'insert': s.update(i=idx(), v=rand_item(rng, d))
     if op == 'count': s['v'] = rand_item(rng, d)
     if op == 'astype': s['d'] = rng.choice(['uint8', 'int16', 'hex4', 'float16'])
-    if op in ('scalar_op', 'inplace_op'): s.update(f=rng.choice(['add', 'sub', 'mul', 'floordiv', 'truediv', 'mod', 'lshift', 'rshift', 'and', 'or', 'xor', 'lt', 'eq', 'neg', 'abs']), x=rng.choice([0, 1, 2, 3, -1, 0.5, 7]))
+    if op in ('scalar_op', 'inplace_op'): s.update(f=rng.choice(['add', 'sub', 'mul', 'floordiv', 'truediv', 'mod', 'lshift', 'rshift', 'and', 'or', 'xor', 'lt', 'eq', 'neg', 'abs', 'radd', 'rsub', 'rsub', 'rmul']), x=rng.choice([0, 1, 2, 3, -1, 0.5, 7, 255, 256, 300]))
     if op == 'array_op': s.update(f=rng.choice(['add', 'sub', 'mul', 'lt', 'eq']), d2=rng.choice(['uint8', 'int16', 'float16', 'uint5', 'int7', 'float32']), same_len=rng.random() < 0.85)
     return s
 
@@ -74,7 +76,8 @@ def cv(v):
     return v
 
 OPS = {'add': operator.add, 'sub': operator.sub, 'mul': operator.mul, 'floordiv': operator.floordiv, 'truediv': operator.truediv, 'mod': operator.mod, 'lshift': operator.lshift,
-       'rshift': operator.rshift, 'and': operator.and_, 'or': operator.or_, 'xor': operator.xor, 'lt': operator.lt, 'eq': operator.eq}
+       'rshift': operator.rshift, 'and': operator.and_, 'or': operator.or_, 'xor': operator.xor, 'lt': operator.lt, 'eq': operator.eq,
+       'radd': lambda a, x: x + a, 'rsub': lambda a, x: x - a, 'rmul': lambda a, x: x * a}      # scalar on the left
 IOPS = {'add': operator.iadd, 'sub': operator.isub, 'mul': operator.imul, 'floordiv': operator.ifloordiv, 'truediv': operator.itruediv, 'mod': operator.imod, 'lshift': operator.ilshift,
         'rshift': operator.irshift, 'and': operator.iand, 'or': operator.ior, 'xor': operator.ixor}
 
@@ -93,7 +96,15 @@ def apply_impl(a, st, rng):
     if op == 'delitem': del a[st['i']]; return None
     if op == 'delslice': del a[slice(*st['k'])]; return None
     if op == 'append': return a.append(pv(st['v']))
-    if op == 'extend': return a.extend([pv(v) for v in st['vs']])
+    if op == 'extend':
+        if st.get('as_array') and all(isinstance(v, int) and not isinstance(v, bool) for v in st['vs']) and str(a.dtype).startswith(('uint', 'int')):
+            import bitstring
+            other = Array(bitstring.Dtype(a.dtype.name, a.dtype.length, scale=st['as_array']), [v * st['as_array'] for v in st['vs']])
+            before = a.tolist()
+            try: a.extend(other)
+            except TypeError: return ['refused']
+            return ['extended', a.tolist() == before + other.tolist()]
+        return a.extend([pv(v) for v in st['vs']])
     if op == 'insert': return a.insert(st['i'], pv(st['v']))
     if op == 'pop': return cv(a.pop(st['i']))
     if op == 'reverse': return a.reverse()
@@ -143,6 +154,16 @@ def run_impl(c):
     return ('ok', {'init': ['ok', snap(a) if not trace else trace[0][0]], 'trace': trace})
 
 # ---------------- reference: python list + encoder ----------------
+def kind_ok(d, v):
+    """the value has the Python type the dtype documents (the generator draws values for the initial dtype; astype may have changed it)"""
+    name, w = dtype_info(d)
+    if name.startswith('uint') or name.startswith('int'): return isinstance(v, int) and not isinstance(v, bool)
+    if name in ('hex', 'bin', 'oct'): return isinstance(v, str)
+    if name == 'bool': return isinstance(v, bool)
+    if name == 'bytes': return isinstance(v, dict) and 'b' in v
+    if name == 'bits': return isinstance(v, dict) and 'bits' in v
+    return isinstance(v, (int, float)) and not isinstance(v, bool)
+
 def enc_item(d, v):
     """encoding of one item through an independent route (struct / format); None if not encodable"""
     import bitstring
@@ -186,6 +207,12 @@ def oracle_(c, obs):
         L = list(items)
         E = lambda xs: [enc_item(dt, x) for x in xs]
         newvals = [st['v']] if 'v' in st and op in ('setitem', 'append', 'insert') else (st.get('vs', []) if op in ('setslice', 'extend') else [])
+        if op == 'extend' and st.get('as_array') and r[0] == 'ok' and isinstance(r[1], list) and r[1] and r[1][0] in ('refused', 'extended'):
+            # extend with an Array of the same dtype name and length but another scale: either refused or the decoded items are appended
+            if r[1][0] == 'extended' and not r[1][1]: return f"{where}: extend() with an Array of another scale reinterpreted its raw data"
+            continue
+        if any(not kind_ok(dt, x) for x in newvals + ([st['v']] if op == 'count' else [])):
+            continue          # an earlier step changed the dtype: this value is of a Python type the current dtype does not document (not specified)
         if any(enc_item(dt, x) is None for x in newvals):
             # a value that does not fit the (current) dtype: must raise and change nothing
             if r[0] != 'err': return f"{where}: a value that does not fit {dt} was accepted: {str(after)[:200]}"
@@ -245,7 +272,8 @@ def oracle_(c, obs):
             elif op == 'count':
                 ev = enc_item(dt, st['v'])
                 if ev is None: continue          # the value is not one of the current dtype (the dtype was changed by an earlier step): not specified
-                same = lambda x: (pv(x) == pv(st['v'])) if type(pv(x)) is type(pv(st['v'])) else (enc_item(dt, x) == ev)
+                num = lambda z: isinstance(z, (int, float)) and not isinstance(z, bool)
+                same = lambda x: (pv(x) == pv(st['v'])) if (type(pv(x)) is type(pv(st['v'])) or (num(pv(x)) and num(pv(st['v'])))) else (enc_item(dt, x) == ev)
                 exp = sum(1 for x in L if same(x))
                 if r[0] == 'ok' and r[1] != exp: return f"{where} returned {r}, list gives {exp}"
             elif op == 'iter':
@@ -271,6 +299,13 @@ def oracle_(c, obs):
         if all(e is not None for e in encs) and not dt2.startswith('Dtype') and ['f', 'nan'] not in its2:
             if ''.join(encs) + trail2 != data2: return f"{where}: data {data2!r} is not the concatenation of the item encodings {encs} + trailing {trail2!r}"
         # element-wise operators
+        if op == 'scalar_op' and r[0] == 'err' and dtype_info(dt)[0] in ('uint', 'int') and not trail and isinstance(st.get('x'), int) \
+                and st['f'] in ('add', 'sub', 'mul', 'radd', 'rsub', 'rmul', 'neg', 'abs') and all(isinstance(v, int) for v in L):
+            # "a result that does not fit raises": and one in which every item fits must not
+            f = st['f']; x = st['x']
+            exp = [-v for v in L] if f == 'neg' else ([abs(v) for v in L] if f == 'abs' else [OPS[f](v, x) for v in L])
+            if all(enc_item(dt, v) is not None for v in exp):
+                return f"{where}: every item of the element-wise result {exp} fits {dt}, yet the operator raised {r[1]}"
         if op in ('scalar_op',) and r[0] == 'ok' and r[1] != 'skip' and name in ('uint', 'int') and not trail:
             f = st['f']; x = st['x']
             try:
